@@ -26,6 +26,11 @@ def run_scenario(scenario_text, profile="dev", timeout=1500):
         broke = [l for l in lines if l.startswith("RESULT harness-panic")]
         holds = any(l.startswith("RESULT holds") for l in lines)
         panicked = "panicked at" in out and not holds and not viol and not broke
+        crash = re.search(r"\(signal: \d+, (SIG(?:SEGV|BUS|ILL|ABRT))", out)
+        if crash and "SCENARIO" in out:
+            # the test process died inside a scenario: memory unsafety / abort in the code under test
+            lines.append(f"RESULT violation: the process crashed with {crash.group(1)} while running the scenario")
+            viol.append(lines[-1])
         if broke and not viol:
             rep = None
         elif viol or panicked:
